@@ -3,7 +3,11 @@ package multiplex
 import (
 	"encoding/hex"
 	"fmt"
+	"net"
 	"testing"
+	"testing/synctest"
+
+	"github.com/cbeuw/Cloak/internal/common"
 
 	vk "github.com/cbeuw/Cloak/internal/verifkit"
 	"pgregory.net/rapid"
@@ -175,4 +179,121 @@ func TestVerif_C01_SessionPair(t *testing.T) {
 
 func TestVerif_C01_ManyStreams(t *testing.T) {
 	vk.Run(t, "C01", "ManyStreams", c01Gen(300, 900), c01Run(t))
+}
+
+// ---- layer 2: a connection being added while streams are writing (schedule point addConn.betweenCountAndStore) ----
+
+type c01AddRace struct {
+	Cfg    rigCfg
+	Pre    []rigOp
+	Side   int     // side whose AddConnection is held at the point
+	During []rigOp // writes issued while the adder is parked
+	Post   []rigOp
+}
+
+func c01AddRaceRun(t *testing.T) func(sc c01AddRace) (vk.Result, error) {
+	return func(sc c01AddRace) (vk.Result, error) {
+		res := vk.Result{}
+		var verr error
+		berr := vk.Bubble(t, func() {
+			r, err := newRig(t, sc.Cfg)
+			if err != nil {
+				verr = fmt.Errorf("harness: %v", err)
+				return
+			}
+			defer r.teardown()
+			run := func(ops []rigOp, phase string) bool {
+				for i, op := range ops {
+					if verr = r.step(op); verr != nil {
+						return false
+					}
+					if verr = c01Invariant(r, fmt.Sprintf("%s op %d (%s)", phase, i, op.K)); verr != nil {
+						return false
+					}
+				}
+				return true
+			}
+			if !run(sc.Pre, "before the new connection") {
+				return
+			}
+			// new link: the held side adds it first
+			l := vk.NewLink(len(r.links), true)
+			r.links = append(r.links, l)
+			r.delivered[0] = append(r.delivered[0], 0)
+			r.delivered[1] = append(r.delivered[1], 0)
+			ends := [2]net.Conn{common.NewTLSConn(l.A), common.NewTLSConn(l.B)}
+			h := vArm("addConn.betweenCountAndStore")
+			defer h.Release()
+			go r.sesh[sc.Side].AddConnection(ends[sc.Side])
+			synctest.Wait()
+			held := h.IsReached()
+			nWrites := 0
+			for i, op := range sc.During {
+				op.Side = sc.Side
+				if op.K == "write" {
+					nWrites++
+				}
+				if verr = r.step(op); verr != nil {
+					return
+				}
+				if verr = c01Invariant(r, fmt.Sprintf("while a connection is being added, op %d (%s)", i, op.K)); verr != nil {
+					if v, ok := verr.(*vk.Violation); ok {
+						v.Sig = "addconn-publish-race"
+					}
+					return
+				}
+			}
+			h.Release()
+			synctest.Wait()
+			r.sesh[1-sc.Side].AddConnection(ends[1-sc.Side])
+			synctest.Wait()
+			if !run(sc.Post, "after the new connection") {
+				return
+			}
+			if verr = r.drain(); verr != nil {
+				return
+			}
+			if verr = c01Invariant(r, "after final drain"); verr != nil {
+				return
+			}
+			verr = c01Final(r)
+			res.NonTrivial = held && nWrites > 0
+			if res.NonTrivial {
+				res.Labels = append(res.Labels, "writes-while-adder-parked")
+			}
+		})
+		if verr == nil && berr != nil {
+			verr = vk.Violatef("goroutines left blocked or crashed: %v", firstLine(berr.Error()))
+		}
+		return res, verr
+	}
+}
+
+func TestVerif_C01_AddConnRace(t *testing.T) {
+	vk.Run(t, "C01", "AddConnRace", func(rt *rapid.T) c01AddRace {
+		base := c01Gen(4, 30)(rt)
+		for base.Cfg.Singleplex {
+			base.Cfg.Singleplex = false
+			base.Cfg.NumConn = rapid.IntRange(1, 4).Draw(rt, "nc2")
+		}
+		sc := c01AddRace{Cfg: base.Cfg, Pre: base.Ops, Side: rapid.IntRange(0, 1).Draw(rt, "side")}
+		// make sure the held side has a stream it can write on: client writes first and it is delivered
+		sc.Pre = append(sc.Pre, rigOp{K: "write", Side: 0, S: 0, N: 10})
+		for c := 0; c < sc.Cfg.NumConn; c++ {
+			sc.Pre = append(sc.Pre, rigOp{K: "deliver", Side: 0, C: c, Mode: 2})
+		}
+		n := rapid.IntRange(1, 12).Draw(rt, "nduring")
+		for i := 0; i < n; i++ {
+			sc.During = append(sc.During, rigOp{K: "write", S: 0, N: rapid.SampledFrom([]int{1, 100, vMaxUnit, 3 * vMaxUnit, 5 * vMaxUnit}).Draw(rt, "dn")})
+		}
+		m := rapid.IntRange(0, 10).Draw(rt, "npost")
+		for i := 0; i < m; i++ {
+			if rapid.Bool().Draw(rt, "pw") {
+				sc.Post = append(sc.Post, rigOp{K: "write", Side: rapid.IntRange(0, 1).Draw(rt, "ps"), S: 0, N: genSize(rt)})
+			} else {
+				sc.Post = append(sc.Post, genDeliver(rt, sc.Cfg.NumConn+1))
+			}
+		}
+		return sc
+	}, c01AddRaceRun(t))
 }
